@@ -100,6 +100,17 @@ func c01Case(w *rt.W, st *c01State, y int64, m, d int, slow bool) {
 			c01Fail(w, "out-retained-changed", a[0], int(a[1]), int(a[2]), "text returned earlier, re-read after later formatting calls", string(h), st.heldWant[i])
 		}
 	}
+	// the caller owns what it was handed, spare capacity included: appending to an earlier result
+	// (here: filling its capacity) must not reach into results handed out later
+	for _, h := range st.held {
+		x := h[:cap(h)]
+		for i := len(h); i < len(x); i++ {
+			x[i] = '#'
+		}
+	}
+	if string(outE) != wantE || string(outB) != wantB || string(mt) != wantE {
+		c01Fail(w, "out-results-share-capacity", y, m, d, "results of this call after the spare capacity of the previous call's results was filled", string(outE)+" "+string(outB)+" "+string(mt), wantE+" "+wantB+" "+wantE)
+	}
 	st.held = append(st.held[:0], outE, outB, mt)
 	st.heldWant = append(st.heldWant[:0], string(outE), string(outB), string(mt))
 	st.heldArgs = append(st.heldArgs[:0], [3]int64{y, int64(m), int64(d)}, [3]int64{y, int64(m), int64(d)}, [3]int64{y, int64(m), int64(d)})
